@@ -4,7 +4,7 @@
     pptx(doc, images=None, opts=None) -> bytes     CAPS_PPTX
     xlsx(doc, images=None, opts=None) -> bytes     CAPS_XLSX   (doc[2] = [["sheet", name, grid(, extras)], ...])
 
-`images` maps an image key to (bytes, ext), ext in {"png", "jpeg", "gif", "bmp"}.
+`images` maps an image key to (bytes, ext), ext in {"png", "jpeg", "gif", "bmp", "tiff", "emf", "wmf"}.
 `opts` (all optional):
   common  image_ref       "relative" (default) | "parent" | "absolute" | "shared" | "dup_rid_parts" | "missing" | "external"
           alt             {image key: alt text}  -> descr attribute of the picture's cNvPr (default: none)
@@ -73,7 +73,8 @@ CT_S = "application/vnd.openxmlformats-officedocument.spreadsheetml."
 CT_THEME = "application/vnd.openxmlformats-officedocument.theme+xml"
 CT_DRAWING = "application/vnd.openxmlformats-officedocument.drawing+xml"
 XML_DECL = '<?xml version="1.0" encoding="UTF-8" standalone="yes"?>\n'
-IMG_CT = {"png": "image/png", "jpeg": "image/jpeg", "gif": "image/gif", "bmp": "image/bmp"}
+IMG_CT = {"png": "image/png", "jpeg": "image/jpeg", "gif": "image/gif", "bmp": "image/bmp",
+          "tiff": "image/tiff", "emf": "image/x-emf", "wmf": "image/x-wmf"}       # the last three: picture-kind family of C04
 IMAGE_REFS = ("relative", "parent", "absolute", "shared", "dup_rid_parts", "missing", "external")
 FIXED_DATE = "2020-01-01T00:00:00Z"
 AUTHOR = "verif"
@@ -188,7 +189,7 @@ class _Package:
 _OPTS_COMMON = ("image_ref", "alt", "core_dates", "zip_stored", "math_seed", "labeler")
 OPTS_DOCX = _OPTS_COMMON + ("block_sdt", "last_rendered_breaks", "br_type", "cell_sdt")
 OPTS_PPTX = _OPTS_COMMON + ("no_offsets", "comment_part_numbering", "math_fallback_image", "slide_part_numbers")
-OPTS_XLSX = _OPTS_COMMON + ("inline_strings", "sheet_images")
+OPTS_XLSX = _OPTS_COMMON + ("inline_strings", "sheet_images", "date1904")
 
 
 def _check_opts(opts, allowed):
@@ -1251,8 +1252,13 @@ def col_letters(c: int) -> str:
     return s
 
 
-def excel_serial(date: _dt.date) -> int:
-    """1900 date system day number, including the fictitious 1900-02-29 (serial 60)."""
+def excel_serial(date: _dt.date, date1904: bool = False) -> int:
+    """1900 date system day number, including the fictitious 1900-02-29 (serial 60); date1904: days since 1904-01-01."""
+    if date1904:
+        n = (date - _dt.date(1904, 1, 1)).days
+        if n < 0:
+            raise NotImplementedError("dates before 1904-01-01 cannot be stored as 1904-system serials")
+        return n
     n = (date - _dt.date(1899, 12, 31)).days
     if n < 1:
         raise NotImplementedError("dates before 1900-01-01 cannot be stored as 1900-system serials")
@@ -1274,9 +1280,10 @@ def _day_fraction(seconds) -> str:
 
 
 class _Sheet:
-    def __init__(self, sst, inline):
+    def __init__(self, sst, inline, date1904=False):
         self.sst = sst
         self.inline = inline
+        self.date1904 = date1904   # workbookPr/@date1904: date serials count from 1904-01-01
         self.nrefs = 0             # number of shared-string cell references (sst/@count)
 
     def value(self, cell):
@@ -1305,13 +1312,13 @@ class _Sheet:
                 raise ValueError("not a SpreadsheetML error value: %r" % (cell[1],))
             return "e", XF_GENERAL, "<v>%s</v>" % _esc(cell[1])
         if k == "d":
-            return None, XF_DATE, "<v>%d</v>" % excel_serial(_dt.date.fromisoformat(cell[1]))
+            return None, XF_DATE, "<v>%d</v>" % excel_serial(_dt.date.fromisoformat(cell[1]), self.date1904)
         if k == "dt":
             d = _dt.datetime.fromisoformat(cell[1])
             if d.tzinfo is not None:
                 raise NotImplementedError("time zones cannot be stored in a date cell")
             secs = d.hour * 3600 + d.minute * 60 + d.second + d.microsecond / 1e6
-            return None, XF_DATETIME, "<v>%s</v>" % _num(excel_serial(d.date()) + secs / 86400.0)
+            return None, XF_DATETIME, "<v>%s</v>" % _num(excel_serial(d.date(), self.date1904) + secs / 86400.0)
         if k == "tm":
             t = _dt.time.fromisoformat(cell[1])
             secs = t.hour * 3600 + t.minute * 60 + t.second + t.microsecond / 1e6
@@ -1425,7 +1432,7 @@ def xlsx(doc, images=None, opts=None) -> bytes:
     _add_core(pkg, meta, opts)
     pool = _ImagePool(pkg, images, opts, "xl/media")
     sst = {}
-    writer = _Sheet(sst, bool(opts.get("inline_strings")))
+    writer = _Sheet(sst, bool(opts.get("inline_strings")), bool(opts.get("date1904")))
     extra_imgs = opts.get("sheet_images") or {}
     sheet_parts, drawing_parts = [], []
     rids = []
@@ -1444,7 +1451,7 @@ def xlsx(doc, images=None, opts=None) -> bytes:
     pkg.rel(wbn, RT + "styles", "styles.xml")
     if sst:
         pkg.rel(wbn, RT + "sharedStrings", "sharedStrings.xml")
-    wb = [XML_DECL, '<workbook xmlns="%s" xmlns:r="%s"><bookViews><workbookView/></bookViews><sheets>' % (NS_S, NS_R)]
+    wb = [XML_DECL, '<workbook xmlns="%s" xmlns:r="%s">%s<bookViews><workbookView/></bookViews><sheets>' % (NS_S, NS_R, '<workbookPr date1904="1"/>' if opts.get("date1904") else "")]
     for i, (u, rid) in enumerate(zip(sheets, rids), 1):
         wb.append('<sheet name="%s" sheetId="%d" r:id="%s"/>' % (_attr(u[1]), i, rid))
     wb.append("</sheets></workbook>")
